@@ -127,3 +127,16 @@ End CR.
 (* the hypotheses are met: V - {q} itself represents V - {q} *)
 Lemma rep_vtilde_of g q : rep_vtilde (nv g) q (vtilde g q) /\ NoDup (vtilde g q).
 Proof. split; [|apply NoDup_filter, Vg_nodup]. intros v. apply Bool.eq_true_iff_eq. rewrite s_mem_In. unfold vtilde. rewrite filter_In, in_Vg, andb_true_iff, Nat.ltb_lt. tauto. Qed.
+
+(* the constructor CFConfig(divisor, q), translated from the current source: it raises exactly when q is not a vertex of the divisor's graph; otherwise the new
+   configuration remembers q and V - {q} - which is what the hypotheses rep_vtilde / NoDup of the theorems above ask for *)
+Lemma s_mem_filter p v l : s_mem v (filter p l) = s_mem v l && p v.
+Proof. unfold s_mem. induction l as [|a l IH]; [reflexivity|]. cbn [filter existsb]. destruct (p a) eqn:Pa; cbn [existsb]; rewrite IH.
+  - destruct (Nat.eqb_spec v a) as [->|Q]; cbn [orb]; [rewrite Pa; reflexivity|reflexivity].
+  - destruct (Nat.eqb_spec v a) as [->|Q]; cbn [orb]; [rewrite Pa, andb_false_r; destruct (existsb (Nat.eqb a) l); reflexivity|reflexivity]. Qed.
+Theorem config_ctor_refines n vs dd q : rep_vset n vs -> NoDup vs ->
+  match CFConfigMoves___init__ vs dd q with
+  | PyOk (qv, vt) => Nat.ltb q n = true /\ qv = q /\ rep_vtilde n q vt /\ NoDup vt
+  | PyExn _ => Nat.ltb q n = false end.
+Proof. intros Hvs Hnd. unfold CFConfigMoves___init__. cbn zeta. rewrite (Hvs q). destruct (Nat.ltb q n); cbn [negb]; [|reflexivity].
+  split; [reflexivity|]. split; [reflexivity|]. split; [|apply NoDup_filter; exact Hnd]. intros v. rewrite s_mem_filter, (Hvs v). reflexivity. Qed.
